@@ -3,8 +3,9 @@
 # with a VIOLATION line, on a scratch copy of /repo/src (never on /repo itself).  usage: tools/sensitivity.sh [budget_s|default] [ids...]   (default = the quick tier as registered: 50 s and at least 400 runs)
 cd "$(dirname "$0")/.." || exit 9
 BUDGET=${1:-45}; shift 2>/dev/null
+# with explicit ids the result goes to a scratch file: evidence/selftest_sensitivity.json holds the merged full pass
+if [ -n "$*" ]; then OUTJSON=$(mktemp /dev/shm/sensitivity-subset.XXXX.json); else OUTJSON=evidence/selftest_sensitivity.json; fi
 IDS=${*:-$(for d in seeded/*; do grep -q "\"out_of_scope\": true" $d/meta.json || basename $d; done)}
-OUTJSON=evidence/selftest_sensitivity.json
 RES=""
 for id in $IDS; do
   PROP=$(/venv/bin/python -c "import json;m=json.load(open('seeded/$id/meta.json'));print(m.get('check_property') or m['property'])")
